@@ -1,10 +1,12 @@
 import Driver.Rainflow
 import Driver.HCM
 import Driver.FkmNonlinear
+import Driver.Woehler
+import Driver.Collective
 open PylifeVerif.Driver
 
 /-- All handlers; the first that recognises the op answers. -/
-def handlers : List (List String → Option String) := [handleRainflow, handleHCM, handleFkmNonlinear]
+def handlers : List (List String → Option String) := [handleRainflow, handleHCM, handleFkmNonlinear, handleWoehler, handleCollective]
 
 def answer (line : String) : String :=
   let toks := (line.splitOn " ").filter (· ≠ "")
